@@ -152,6 +152,8 @@ def pKOp : P KOp := do
     pure (.update k s v a)
   | "ker" => do let k ← P.nat; pure (.updateKernel k)
   | "vp" => do let l ← P.list P.rat; pure (.valuesParam l)
+  | "pdef" => pure .paramsDefaultDofs
+  | "pker" => pure .paramsKernelDof
   | _ => failure
 
 open Darsia.Kern in
@@ -224,8 +226,50 @@ def pLabelSeq : P String := do
   P.done
   pure (" ; ".intercalate ((cacheRun Gen.nearDev rows shapes).map showNats))
 
+/-- `hetcall h w v.. | L s.. o.. | H W | n x..` : HeterogeneousLinearModel(labels h×w)(signal H×W), row-major values -/
+def pHetCall : P String := do
+  let h ← P.nat; let w ← P.nat
+  let rows ← P.rep (P.rep P.nat w) h
+  bar
+  let L ← P.nat; let s ← P.rep P.rat L; let o ← P.rep P.rat L
+  bar
+  let H ← P.nat; let W ← P.nat
+  bar
+  let xs ← P.list P.rat
+  P.done
+  pure (showRats (hetCallResized Gen.nearDev rows s o H W xs))
+
+def pStage : P Stage := do
+  let rest ← get
+  match rest with
+  | "thrh" :: _ => do
+    let _ ← P.tok; let lo ← P.rat; let hi ← pOptRat; let rf ← P.bool; pure (.thrHom lo hi rf)
+  | "thrt" :: _ => do
+    let _ ← P.tok; let L ← P.nat; let lo ← P.rep P.rat L
+    let h ← P.tok
+    let hi ← if h = "none" then pure none else (do let l ← P.rep P.rat L; pure (some l))
+    let rf ← P.bool
+    pure (.thrHet lo hi rf)
+  | _ => do let m ← pModel; pure (.model m)
+
+/-- `runargs <dtype> <n> stage.. | nomask / mask b.. | npix (labelvalue val)..` : CombinedModel(stages)(signal[, mask]) -/
+def pRunArgs : P String := do
+  let dt ← P.tok
+  let d ← (match parseDType dt with | some d => pure d | none => failure : P DType)
+  let sts ← P.list pStage
+  bar
+  let rest ← get
+  let maskToks := rest.takeWhile (· ≠ "|")
+  set (rest.dropWhile (· ≠ "|")); bar
+  let sig ← pPix; P.done
+  let (mask, _) ← (pMaskL sig.length).run maskToks
+  let out := callStages sts (sig.map (·.label)) (match mask with | some m => [m] | none => []) d (sig.map (·.val))
+  pure (out.1.show ++ " " ++ showRats out.2)
+
 def dispatch : List String → Option String
   | "kern" :: rest => (pKern.run rest).map (·.1)
+  | "runargs" :: rest => (pRunArgs.run rest).map (·.1)
+  | "hetcall" :: rest => (pHetCall.run rest).map (·.1)
   | "labelseq" :: rest => (pLabelSeq.run rest).map (·.1)
   | "wrap" :: rest => (pWrap.run rest).map (·.1)
   | "lincomb" :: rest => (pLinComb.run rest).map (·.1)
